@@ -760,6 +760,11 @@ func (p *postHandshake) completePostHandshakeFlight(conn Conn, id postHandshakeF
 		delete(p.recordIndex, number)
 	}
 	delete(p.flights, id)
+	// The acknowledged message will not be sent again: like the received ones,
+	// it must not stay in the cache for the life of the connection.
+	if p.cache != nil && p.state != nil {
+		p.cache.Remove(id.MessageSequence, p.state.IsClient)
+	}
 	flight.Completion.complete(completionErr)
 
 	return completionErr
